@@ -56,6 +56,7 @@ type caseT struct {
 
 var maxResp int32
 var panics int32
+var failCase, crashCase string
 
 // ---------------------------------------------------------------- events
 
@@ -505,9 +506,17 @@ type obsT struct {
 
 func runCase(c caseT) (obsT, error) {
 	var o obsT
-	ln, err := net.Listen("tcp", "127.0.0.1:0")
+	// infrastructure under load (ephemeral ports, TIME_WAIT, slow accept): listener creation is retried with back-off
+	var ln net.Listener
+	var err error
+	for i := 0; i < 50; i++ {
+		if ln, err = net.Listen("tcp", "127.0.0.1:0"); err == nil {
+			break
+		}
+		time.Sleep(time.Duration(20*(i+1)) * time.Millisecond)
+	}
 	if err != nil {
-		return o, err
+		return o, fmt.Errorf("listen: %v", err)
 	}
 	defer ln.Close()
 	srv := &server{ln: ln, c: c, measuring: true, ch: make(chan reqRec, 64)}
@@ -523,7 +532,7 @@ func runCase(c caseT) (obsT, error) {
 	conf := sarama.NewConfig()
 	conf.Net.MaxOpenRequests = c.Max
 	conf.Net.ReadTimeout = time.Duration(c.ReadTimeoutMs) * time.Millisecond
-	conf.Net.DialTimeout = 5 * time.Second
+	conf.Net.DialTimeout = 10 * time.Second
 	conf.Version = sarama.V2_4_0_0
 	if c.OldVersion {
 		conf.Version = sarama.V1_0_0_0
@@ -537,8 +546,15 @@ func runCase(c caseT) (obsT, error) {
 	if ok, err := b.Connected(); !ok || err != nil {
 		return o, fmt.Errorf("connect: %v", err)
 	}
-	if err := <-accepted; err != nil {
-		return o, err
+	select {
+	case err := <-accepted:
+		if err != nil {
+			go func() { _ = b.Close() }()
+			return o, fmt.Errorf("accept: %v", err)
+		}
+	case <-time.After(10 * time.Second):
+		go func() { _ = b.Close() }()
+		return o, fmt.Errorf("accept: no connection arrived within 10 s")
 	}
 	sarama.VerifC14SetCorrelationID(b, c.Corr0)
 	srv.wg.Add(2)
@@ -1145,13 +1161,42 @@ type outT struct {
 	err  error
 }
 
-func runChecked(c caseT) outT {
+// runInfra runs a case; a failure of the harness infrastructure (listener, dial, accept, a panic of harness code) is retried
+// on fresh infrastructure with back-off
+func runInfra(c caseT) (o obsT, err error) {
+	for attempt := 0; attempt < 6; attempt++ {
+		o, err = func() (o obsT, err error) {
+			defer func() {
+				if v := recover(); v != nil {
+					err = fmt.Errorf("harness panic: %v", v)
+				}
+			}()
+			if failCase != "" && c.Name == failCase {
+				return o, fmt.Errorf("self-test: infrastructure failure injected")
+			}
+			return runCase(c)
+		}()
+		if err == nil {
+			return o, nil
+		}
+		fmt.Fprintf(os.Stderr, "case %s attempt %d: %v\n", c.Name, attempt+1, err)
+		time.Sleep(time.Duration(200*(attempt+1)) * time.Millisecond)
+	}
+	return o, err
+}
+
+func runChecked(c caseT) (res outT) {
+	defer func() {
+		if v := recover(); v != nil {
+			res = outT{c: c, err: fmt.Errorf("harness panic while evaluating the case: %v", v)}
+		}
+	}()
 	var o obsT
 	var err error
 	for attempt := 0; attempt < 3; attempt++ {
-		o, err = runCase(c)
+		o, err = runInfra(c)
 		if err != nil {
-			continue
+			break
 		}
 		if !noisy(o) {
 			break
@@ -1166,7 +1211,7 @@ func runChecked(c caseT) outT {
 	mon := monitor(c, o)
 	// anything but the steered (deterministic) wire-bound measurement must reproduce before it counts
 	if mon != nil && !(strings.HasPrefix(mon.Signature, "c14:wire-bound") && o.HeldOut > c.Max) {
-		o2, err2 := runCase(c)
+		o2, err2 := runInfra(c)
 		if err2 != nil {
 			return outT{c: c, o: o}
 		}
@@ -1175,7 +1220,7 @@ func runChecked(c caseT) outT {
 			if mon2 == nil {
 				return outT{c: c, o: o2}
 			}
-			o3, err3 := runCase(c)
+			o3, err3 := runInfra(c)
 			if err3 != nil {
 				return outT{c: c, o: o2}
 			}
@@ -1195,6 +1240,8 @@ func main() {
 	seed := flag.Int64("seed", 1, "seed")
 	n := flag.Int("n", 400, "number of random cases")
 	workers := flag.Int("workers", 8, "cases run concurrently")
+	flag.StringVar(&failCase, "failcase", "", "self-test: the infrastructure of the case with this name always fails")
+	flag.StringVar(&crashCase, "crashcase", "", "self-test: the process exits when it reaches the case with this name")
 	flag.Parse()
 	r := rand.New(rand.NewSource(*seed))
 	maxResp = []int32{1000, 4096, 65536}[r.Intn(3)]
@@ -1208,48 +1255,63 @@ func main() {
 	for i := 0; i < *n; i++ {
 		cases = append(cases, genCase(r, i))
 	}
-	outs := make([]outT, len(cases))
-	var wg sync.WaitGroup
-	sem := make(chan struct{}, *workers)
-	for i := range cases {
-		i := i
-		wg.Add(1)
-		sem <- struct{}{}
-		go func() {
-			defer wg.Done()
-			defer func() { <-sem }()
-			outs[i] = runChecked(cases[i])
-		}()
-	}
-	wg.Wait()
-	w := &cf.Writer{Dir: *out, Prefix: "cases_c14", Imports: "From SV Require Import C14.Model C14.Corr.", CaseType: "ccase", MismatchFn: "mismatches_c14", ShardSize: 150}
-	nohooks, skipped := 0, 0
-	for _, x := range outs {
-		if x.err != nil {
-			fmt.Fprintf(os.Stderr, "case %s: harness error: %v\n", x.c.Name, x.err)
-			os.Exit(3)
+	// the cases run in batches; each batch is written (and announced) as soon as it is complete, so that a crash of this
+	// process does not lose what was already observed
+	const batch = 150
+	nohooks, skipped, failed, total := 0, 0, 0, 0
+	for b0 := 0; b0 < len(cases); b0 += batch {
+		b1 := b0 + batch
+		if b1 > len(cases) {
+			b1 = len(cases)
 		}
-		if x.skip {
-			skipped++
-			continue
+		outs := make([]outT, b1-b0)
+		var wg sync.WaitGroup
+		sem := make(chan struct{}, *workers)
+		for i := b0; i < b1; i++ {
+			i := i
+			wg.Add(1)
+			sem <- struct{}{}
+			go func() {
+				defer wg.Done()
+				defer func() { <-sem }()
+				if crashCase != "" && cases[i].Name == crashCase {
+					os.Exit(7) // self-test: the process dies in the middle of a batch
+				}
+				outs[i-b0] = runChecked(cases[i])
+			}()
 		}
-		if x.o.NoHooks {
-			nohooks++
-		}
-		nexp := 0
-		for _, cl := range x.c.Calls {
-			if cl.Kind == "hb" || cl.Kind == "api" || cl.Kind == "lpr" {
-				nexp++
+		wg.Wait()
+		w := &cf.Writer{Dir: *out, Prefix: fmt.Sprintf("cases_c14_%03d", b0/batch), Imports: "From SV Require Import C14.Model C14.Corr.", CaseType: "ccase", MismatchFn: "mismatches_c14", ShardSize: 0}
+		for _, x := range outs {
+			total++
+			if x.err != nil {
+				// not an observation of the code: the case is left out and reported by name
+				failed++
+				fmt.Printf("HARNESSFAIL case %s could not be run: %v\n", x.c.Name, x.err)
+				continue
 			}
+			if x.skip {
+				skipped++
+				continue
+			}
+			if x.o.NoHooks {
+				nohooks++
+			}
+			nexp := 0
+			for _, cl := range x.c.Calls {
+				if cl.Kind == "hb" || cl.Kind == "api" || cl.Kind == "lpr" {
+					nexp++
+				}
+			}
+			var evs []string
+			for _, e := range x.o.evs {
+				evs = append(evs, fmt.Sprintf("%s k=%d id=%d ok=%v err=%d", e.Kind, e.K, e.ID, e.Ok, e.Err))
+			}
+			x.o.Events = evs
+			w.Add(coqCase(x.c, x.o), cf.Sidecar{Case: map[string]interface{}{"case": x.c, "max_response_size": maxResp, "observed": x.o},
+				Kind: x.c.Steer + "/" + x.c.Term, Nontrivial: nexp >= 2, Monitor: x.mon})
 		}
-		var evs []string
-		for _, e := range x.o.evs {
-			evs = append(evs, fmt.Sprintf("%s k=%d id=%d ok=%v err=%d", e.Kind, e.K, e.ID, e.Ok, e.Err))
-		}
-		x.o.Events = evs
-		w.Add(coqCase(x.c, x.o), cf.Sidecar{Case: map[string]interface{}{"case": x.c, "max_response_size": maxResp, "observed": x.o},
-			Kind: x.c.Steer + "/" + x.c.Term, Nontrivial: nexp >= 2, Monitor: x.mon})
+		w.Close() // writes the shard and prints its CASEFILE line
 	}
-	w.Close()
-	fmt.Printf("C14 cases=%d nohooks=%d skipped=%d panics=%d\n", len(outs), nohooks, skipped, atomic.LoadInt32(&panics))
+	fmt.Printf("C14 cases=%d nohooks=%d skipped=%d failed=%d panics=%d\n", total, nohooks, skipped, failed, atomic.LoadInt32(&panics))
 }
